@@ -32,7 +32,8 @@ RULE = ("registration scripts on a fresh interpreter: EVERY code of the bundled 
         "observed per step: identity (first step that returned the same object), "
         "symbol, name, smallest fraction, exception class, final Money.units(). "
         "operations: all ordered pairs of 12 (quick) / 40 (thorough) currencies x "
-        "{+,-,/,<,<=,>,>=,==,!=,convert,*}; same-currency {constructor,+,-,neg,abs,"
+        "{+,-,/,<,<=,>,>=,==,!=,convert,*} (one case = one ordered pair with its 11 "
+        "operations, run in one interpreter); same-currency {constructor,+,-,neg,abs,"
         "* and / by numbers, convert, /, *, ==, <, string form} with amounts on and "
         "next to ties under all 8 default rounding modes for 12 / all 167 "
         "currencies; user-defined currencies (incl. negative, zero and "
@@ -280,6 +281,7 @@ def gen_cases(rng, tier):
         world = {'currencies': [u, v]}
         if rng.random() < 0.08:
             world = {'predefined': True, 'currencies': [u, v]}
+        subs = []
         for o in PAIR_OPS:
             x = ['q', _numspec(rng, _grid_amount(rng, _sf(u))), u]
             y = ['q', _numspec(rng, _grid_amount(rng, _sf(v))), v]
@@ -287,7 +289,9 @@ def gen_cases(rng, tier):
                 op = {'o': 'convert', 'x': x, 'v': v}
             else:
                 op = {'o': o, 'x': x, 'y': y}
-            cases.append({'kind': 'op', 'world': world, 'dm': rng.choice(MODES), 'op': op})
+            subs.append({'kind': 'op', 'world': world, 'dm': rng.choice(MODES), 'op': op})
+        # the 11 operators of one ordered pair share one interpreter
+        cases.append({'kind': 'multi', 'subs': subs})
     for _ in range(30 if quick else 300):
         u, v = rng.sample(cur, 2)
         a = _tie_amount(rng, _sf(u))
@@ -445,6 +449,9 @@ def _own_op(case):
 
 
 def impl_run(case):
+    if case['kind'] == 'multi':
+        # registering the same ISO currencies again returns the same units
+        return {'subs': [impl_run(c) for c in case['subs']]}
     if case['kind'] == 'script':
         return _run_script(case)
     if case['op']['o'] in OWN_OPS:
@@ -528,6 +535,9 @@ def _coq_robs(s):
 
 
 def coq_case(case, r):
+    if case['kind'] == 'multi':
+        ts = [coq_case(c, x) for c, x in zip(case['subs'], r['subs'])]
+        return f"(MAll {clist([t for t in ts if t is not None])})"
     if case['kind'] == 'script':
         return (f"(MScript {clist([cstr(s) for s in case['foreign']])} "
                 f"{clist([_coq_regop(o) for o in case['ops']])} "
@@ -738,6 +748,12 @@ def _oracle_op(case, r):
 
 
 def oracle(case, r):
+    if case['kind'] == 'multi':
+        for c, x in zip(case['subs'], r['subs']):
+            msg = oracle(c, x)
+            if msg:
+                return msg
+        return None
     if case['kind'] == 'script':
         msg = _oracle_script(case, r)
         m = re.match(r'^(step \d+)[: ]+(.*)$', msg or '', re.S)
@@ -772,6 +788,11 @@ def extra_checks(tier):
 # ------------------------------------------------------------ evidence
 
 def labels(case, r):
+    if case['kind'] == 'multi':
+        out = ['kind=pair-bundle']
+        for c, x in zip(case['subs'], r['subs']):
+            out += [l for l in labels(c, x) if l != 'kind=op']
+        return out
     if case['kind'] == 'script':
         out = ['kind=script', 'script=' + case.get('tag', '')]
         for op, s in zip(case['ops'], r['steps']):
@@ -795,6 +816,8 @@ def labels(case, r):
 
 
 def nontrivial_key(case, r):
+    if case['kind'] == 'multi':
+        return ('m',) + tuple(nontrivial_key(c, x) for c, x in zip(case['subs'], r['subs']))
     if case['kind'] == 'script':
         return ('s', str(case['ops'])[:2000], str(case['foreign']))
     op = case['op']
